@@ -339,6 +339,33 @@ def obligations(r, tier, seed):
                 k.holds(neg(k, res), "%s: different offset types => unequal" % lab)
     obs.append(Ob("C17/structure/landmark-edges-differing-in-offset-type-only", offset_types, funcs=FUNCS, light=True))
 
+    # ---- poses that are VIEWS of one array (columns of a point array: PoseR2 / PoseR3 take a float64 array without copying): what
+    #      they hold decides, not where it is stored
+    for T in ("R2", "R3"):
+        def views(k, T=T):
+            np = k.np
+            n = POSE_C[T]
+            tol = k.pos("tol") / 1000000
+            k.assume(tol * 4 < 1, "tolerance below 1/4")
+            A = k.matrix("A", n, 3)                  # three points as the columns of one array
+            cls = k.pose_cls(T)
+            p, q, w = cls(A[:, 0]), cls(A[:, 1]), cls(A[:, 0])
+            fp, fq = np.array(A[:, 0]), np.array(A[:, 1])
+            below, above = far_below(k, [fp], [fq], tol), far_above(k, [fp], [fq], tol)
+            for a, b, lab in ((p, q, "p.equals(q)"), (q, p, "q.equals(p)")):
+                res = k.returns(lambda a=a, b=b: a.equals(b, tol), lab + " returns")
+                if res is not None:
+                    k.implies(above, neg(k, res), lab + ": columns far apart => unequal, although both are views of one array")
+                    k.implies(below, res, lab + ": columns far below the tolerance apart => equal")
+            same = k.returns(lambda: p.equals(w, tol), "a pose equals another view of the same column")
+            if same is not None:
+                k.holds(same, "two views of the same column are equal")
+            v1, v2 = k.r.Vertex(1, p), k.r.Vertex(1, q)
+            res = k.returns(lambda: v1.equals(v2, tol), "vertices on views return")
+            if res is not None:
+                k.implies(above, neg(k, res), "vertices whose poses are far-apart columns of one array => unequal")
+        obs.append(Ob("C17/structure/poses-that-are-views-of-one-array/%s" % T, views, funcs=FUNCS, light=True))
+
     # ---- an edge versus an edge of a SUBCLASS of its class with identical data: different types, unequal in BOTH directions
     def subclass_pairs(k):
         r_ = k.r
